@@ -379,6 +379,23 @@ async fn probe_recovery(seg: usize, img: &Image, model: &Model, tag: i64) -> Res
     if let Err(e) = load_flushed_seq(&w.dir) {
         return Err(Fail { sig: "C05:load-flushed-seq-fails".into(), msg: e.to_string() });
     }
+    // what the ingester does on start-up when everything in the log is flushed: reopen, truncate below the next
+    // sequence number, and - after another restart - carry on numbering. Run from the images whose newest segment
+    // holds no complete entry (the states in which truncation has to decide which segment keeps the numbering alive).
+    let newest_short = img.iter().filter(|(n, _)| n.starts_with("segment-")).next_back().map(|(_, b)| b.len() < 64).unwrap_or(false);
+    if newest_short {
+        let dir2 = scratch_root().join(format!("c05q-{}", DIR_CTR.fetch_add(1, Ordering::SeqCst)));
+        materialize(&dir2, img);
+        let cfg2 = WalConfig { wal_dir: dir2.clone(), max_segment_size: seg, sync_mode: WalSyncMode::EveryWrite, enabled: true };
+        let mut w2 = World { dir: dir2, cfg: cfg2, wal: None, model: model.clone(), tag };
+        let tagsig = |f: Fail| Fail { sig: format!("{}@reopen+truncate", f.sig), msg: format!("after reopen + truncate_before(next): {}", f.msg) };
+        w2.open().await.map_err(tagsig)?;
+        w2.do_truncate(1).await.map_err(tagsig)?;
+        w2.open().await.map_err(tagsig)?;
+        w2.do_append(1).await.map_err(tagsig)?;
+        w2.check_read("after reopen + truncate + reopen + append").map_err(tagsig)?;
+        let _ = std::fs::remove_dir_all(&w2.dir);
+    }
     Ok(())
 }
 
